@@ -323,71 +323,97 @@ def field_or_accessor(prog, e, field, param=1):
 # with a handful of elements and breaks the property from that many elements on.
 _DROPPING = re.compile(r'Iterator(?:<[^>]*>)?>?::(take|skip|step_by|take_while|skip_while|map_while|filter|filter_map|rev|nth)$')
 SCAN_ALLOWED = {
-    'rough_tlv::decoder::MessageView::new': {'skip': 1},                  # xs.iter().zip(xs.iter().skip(1)): adjacent offsets
-    'rough_tlv::encoder::MessageWrapper::new_from_sorted': {'skip': 1},   # elements.iter().zip(elements.iter().skip(1)): adjacent tags
-    'sliding_deque::sorted_deque::SortedDeque::iter': {'filter': 1},      # the public iterator hides tombstones
-    'owning_iovec::global_deque::GlobalDeque::consume': {'subslice': 1},  # self.slices[..count]: the sizes of the slices consumed
+    'rough_tlv::decoder': {'skip': 1},               # MessageView::new: xs.iter().zip(xs.iter().skip(1)): adjacent offsets / tags
+    'rough_tlv::encoder': {'skip': 1},               # new_from_sorted: elements.iter().zip(elements.iter().skip(1)): adjacent tags
+    'sliding_deque::sorted_deque': {'filter': 1},    # SortedDeque::iter: the public iterator hides tombstones
+    'owning_iovec::global_deque': {'subslice': 1},   # GlobalDeque::consume: self.slices[..count], the sizes of the slices consumed
 }
+
+
+def _scan_module(name):
+    """crate::module of a function path (crate alone for functions at the crate root)"""
+    parts = re.sub(r'<[^<>]*>', '', name).split('::')
+    return '::'.join(parts[:2]) if len(parts) > 2 and parts[1] and parts[1][0].islower() else parts[0]
 _SUBSLICE = ('split_at', 'split_at_mut', 'split_at_checked', 'split_first', 'split_last', 'first_chunk', 'last_chunk', 'chunks', 'chunks_exact', 'rchunks')
 
 
+_SPINE = ('iter', 'iter_mut', 'into_iter', 'windows', 'map', 'enumerate', 'zip', 'chain', 'skip', 'take', 'step_by', 'copied', 'cloned', 'rev', 'peekable',
+          'by_ref', 'filter', 'filter_map', 'take_while', 'skip_while', 'map_while', 'inspect', 'fuse', 'deref', 'deref_mut', 'as_slice', 'as_mut_slice',
+          'as_ref', 'as_mut', 'borrow', 'borrow_mut')
+
+
 def _subslice_sources(it):
-    """calls in an iterator's receiver expression that hand it a *part* of a slice: `xs[a..b]`, `xs.get(a..b)`, `split_at`, `chunks` ..."""
-    out = []
-    for c in it.walk():
-        if c.kind != 'call' or not c.op:
+    """calls on the *spine* of an iterator expression (receiver of each adaptor; both sides of zip / chain) that hand it a
+    part of a slice: `xs[a..b]`, `xs.get(a..b)`, `split_at`, `chunks` ...  Values that merely appear in the expression
+    (`once(values.len())`, closure captures, arguments of other calls) are not sources."""
+    out, seen, todo = [], set(), [it]
+    while todo:
+        e = todo.pop()
+        if not isinstance(e, E) or id(e) in seen:
             continue
-        nm = c.op.rsplit('::', 1)[-1]
+        seen.add(id(e))
+        if e.kind != 'call' or not e.op:
+            if e.kind in ('ref', 'cast', 'proj', 'phi'):
+                todo.extend([e.a] + list(e.args))
+            continue
+        nm = e.op.rsplit('::', 1)[-1]
         if nm in _SUBSLICE:
-            out.append(c)
+            out.append(e)
         elif nm in ('index', 'index_mut', 'get', 'get_mut'):
-            for a in c.args:
-                a = a.strip()
-                rn = (a.info.get('name') or '') if a.kind == 'agg' else ''
+            for x in e.args[1:]:
+                x = x.strip()
+                rn = (x.info.get('name') or '') if x.kind == 'agg' else ''
                 if 'ops::range::Range' in rn and not rn.endswith('RangeFull'):
-                    out.append(c)
+                    out.append(e)
                     break
+        elif nm in _SPINE and e.args:
+            todo.append(e.args[0])
+            if nm in ('zip', 'chain') and len(e.args) > 1:
+                todo.append(e.args[1])
     return out
 
 
 def scan_rule(prefixes):
-    """Build the rule `no new element-dropping iterator adaptor` for the functions whose path starts with one of `prefixes`."""
+    """Build the rule `no new element-dropping iterator adaptor, no new loop over part of a slice` for the functions whose path starts with one of `prefixes`."""
     def rule(cx):
-        per_fn = {}
-        seen = 0
+        found = {}          # (module, kind) -> {source line -> call site}
+        seen = nfn = 0
         for fn in cx.prog.find_fns(lambda f: any(f.name.startswith(p) for p in prefixes)):
-            owner = re.sub(r'(::\{closure#\d+\})+$', '', fn.name)
-            c = per_fn.setdefault(owner, (collections.Counter(), [], fn, set()))
+            nfn += 1
+            mod = _scan_module(fn.name)
             for cs in fn.calls():
-                if 'Iterator' in cs.callee:
-                    seen += 1
+                if 'Iterator' not in cs.callee or cs.t.get('exp'):
+                    continue
+                seen += 1
                 m = _DROPPING.search(cs.callee)
-                if m and not cs.t.get('exp'):
-                    c[0][m.group(1)] += 1
-                    c[1].append(cs)
-                if 'Iterator' in cs.callee and not cs.t.get('exp') and cs.args():
-                    # the source of the iteration is a part of a slice
+                if m:
+                    # keyed by the source line of the call: a helper spliced into two callers, or a closure turned into a
+                    # function, is still one loop
+                    found.setdefault((mod, m.group(1)), {}).setdefault(cs.loc(), (fn, cs))
+                if cs.args():
                     for sub in _subslice_sources(cs.arg(0)):
-                        key = sub.pos if sub.pos is not None else id(sub)
-                        if key not in c[3]:
-                            c[3].add(key)
-                            c[0]['subslice'] += 1
-                            c[1].append(cs)
-        cx.require(per_fn, 'no function under %s' % (prefixes,))
+                        line = fn.loc(sub.pos.bb, sub.pos.idx) if sub.pos is not None else cs.loc()
+                        found.setdefault((mod, 'subslice'), {}).setdefault(line, (fn, cs))
+        cx.require(nfn, 'no function under %s' % (prefixes,))
         bad = 0
-        for owner in sorted(per_fn):
-            cnt, sites, fn, _ = per_fn[owner]
-            allowed = SCAN_ALLOWED.get(owner, {})
-            extra = {k: v - allowed.get(k, 0) for k, v in cnt.items() if v > allowed.get(k, 0)}
-            if cnt or extra:
-                cx.count_sites()
-                cx.check(not extra, 'scan-complete:' + short(owner), fn, sites[0].loc() if sites else None,
-                         'element-dropping adaptors are the audited ones: %s' % (dict(cnt) or 'none'),
-                         fail_detail='%s gains %s: the loop no longer visits every element of its source, in order (audited on the reference tree: %s)'
-                         % (short(owner), ', '.join(('a loop over part of a slice x%d' % kv[1]) if kv[0] == 'subslice' else '.%s() x%d' % kv for kv in sorted(extra.items())), allowed or 'none'))
-                bad += bool(extra)
-        cx.check(bad == 0, 'scan-inventory', None, None, '%d functions under %s, %d iterator calls: no element-dropping adaptor beyond the audited ones'
-                 % (len(per_fn), '/'.join(prefixes), seen), fail_detail='%d function(s) gained an element-dropping iterator adaptor' % bad)
+        mods = sorted({m for m, k in found} | {m for m in SCAN_ALLOWED if any(m.startswith(p) or p.startswith(m) for p in prefixes)})
+        for mod in mods:
+            have = {k: v for (m, k), v in found.items() if m == mod}
+            allowed = SCAN_ALLOWED.get(mod, {})
+            extra = {k: len(v) - allowed.get(k, 0) for k, v in have.items() if len(v) > allowed.get(k, 0)}
+            cx.count_sites()
+            fn, cs = next(iter(next(iter(have.values())).values())) if have else (None, None)
+            if extra:
+                k0 = sorted(extra)[0]
+                fn, cs = list(have[k0].values())[-1]
+            cx.check(not extra, 'scan-complete:' + mod, fn, cs.loc() if cs else None,
+                     'element-dropping adaptors / loops over part of a slice are the audited ones: %s' % ({k: len(v) for k, v in have.items()} or 'none'),
+                     fail_detail='%s gains %s: a loop no longer visits every element of its source, in order (sites: %s; audited on the reference tree: %s)'
+                     % (mod, ', '.join(('a loop over part of a slice x%d' % kv[1]) if kv[0] == 'subslice' else '.%s() x%d' % kv for kv in sorted(extra.items())),
+                        sorted(l for k in extra for l in have[k]), allowed or 'none'))
+            bad += bool(extra)
+        cx.check(bad == 0, 'scan-inventory', None, None, '%d functions under %s, %d iterator calls: no element-dropping adaptor or partial source beyond the audited ones'
+                 % (nfn, '/'.join(prefixes), seen), fail_detail='%d module(s) gained an element-dropping iterator adaptor or a loop over part of a slice' % bad)
     rule.__doc__ = ('loops visit every element: no iterator adaptor that drops or reorders elements (take, skip, step_by, take_while, skip_while, '
-                    'map_while, filter, filter_map, rev, nth) in %s and no loop over a part of a slice, beyond the four audited on the reference tree' % ', '.join(prefixes))
+                    'map_while, filter, filter_map, rev, nth) and no loop over a part of a slice in %s beyond the four audited on the reference tree' % ', '.join(prefixes))
     return rule
